@@ -242,6 +242,13 @@ def c09(chk):
              keep=gc, sample=6000 if quick else 80000)
     l1_stage(chk, "gc_sim", dict(Keys=K2, MaxTx=4, MaxSteps=50, Levels={"RU", "RC", "RR", "SER"}, Ops=TXOPS | {"gc"}),
              simulate=60 if quick else 2000, depth=50)
+    # a reader held open while versions are overwritten, transactions end and the collector runs: the content a read
+    # began with is never taken away from it
+    held = lambda steps: has("rfinish")(steps) and gc(steps)  # noqa: E731
+    l1_stage(chk, "gc_open_reader", dict(Keys=K1, MaxTx=1, MaxSteps=6 if quick else 7, Levels={"RC", "RR"}, Ops=TXOPS | {"gc", "reader"}),
+             keep=held, sample=3000 if quick else 40000)
+    l1_stage(chk, "gc_open_reader_ext", dict(Keys=K1, MaxTx=1, MaxSteps=5 if quick else 6, Levels={"RR"}, Ops={"set", "del", "begin", "rollback", "gc", "reader"}),
+             keep=held, sample=600 if quick else 6000, mode="external")
     l0_traces(chk, "gc_traces", 16 if quick else 240, 600, 3, 5, "set,del,begin,commit,rollback,gc")
 
 
@@ -251,6 +258,9 @@ def c13(chk):
     ops = {"set", "begin", "commit", "rollback", "late"}
     l1_stage(chk, "late_1key", dict(Keys=K1, MaxTx=2, MaxSteps=5 if quick else 6, Levels={"RU", "RC", "RR"}, Ops=ops),
              keep=late, sample=6000 if quick else 80000)
+    # the same through the gRPC client: the handlers have their own idea of what a missing transaction means
+    l1_stage(chk, "late_1key_ext", dict(Keys=K1, MaxTx=2, MaxSteps=5, Levels={"RC", "SER"}, Ops=ops),
+             keep=late, sample=1500 if quick else 20000, mode="external")
     l1_stage(chk, "late_2keys_ru", dict(Keys=K2, MaxTx=2, MaxSteps=5, Levels={"RU", "SER"}, Ops=ops | {"del"}),
              keep=late, sample=4000 if quick else 60000)
     l0_traces(chk, "late_traces", 16 if quick else 160, 300, 4, 4, "set,del,begin,commit,rollback,late")
@@ -537,7 +547,37 @@ def programs_c06():
     return progs
 
 
-def conc_check(chk, programs, dfs_runs, rnd_runs, preempt, family_owner=None, sched_mode=False):
+def programs_free():
+    """Programs for the uncontrolled (free-running) executions, inline and through the gRPC client, with contents of up
+    to 150 000 bytes. They avoid what the recorded findings need (no snapshot Begin, no collector, no rollback), so that
+    an unexplained history is never one of those."""
+    progs = []
+
+    def add(name, setup, actors):
+        progs.append({"name": "free_" + name, "family": "C06", "keys": ["k1", "k2"], "setup": setup,
+                      "actors": [{"name": n, "ops": ops} for n, ops in actors]})
+    tg = Tags()
+    add("downloads", [O("set", 0, "k1", 4), O("set", 0, "k2", 5)],
+        [("A", [O("get", 0, "k1"), O("get", 0, "k2"), O("get", 0, "k1")]), ("B", [O("get", 0, "k2"), O("get", 0, "k1"), O("get", 0, "k2")]),
+         ("C", [O("get", 0, "k1"), O("get", 0, "k2")]), ("D", [O("set", 0, "k1", 10), O("set", 0, "k2", 11)])])
+    # many overlapping reads of contents of 150 000 bytes (several flow-control windows when they travel over gRPC)
+    add("downloads_heavy", [O("set", 0, "k1", 5), O("set", 0, "k2", 11)],
+        [(n, [O("get", 0, k), O("get", 0, j), O("get", 0, k), O("get", 0, j)]) for n, k, j in
+         (("A", "k1", "k2"), ("B", "k2", "k1"), ("C", "k1", "k2"), ("D", "k2", "k1"), ("E", "k1", "k2"), ("F", "k2", "k1"), ("G", "k1", "k2"), ("H", "k2", "k1"))])
+    add("writers", [O("set", 0, "k1", 3)],
+        [("A", [O("set", 0, "k1", 16), O("get", 0, "k1")]), ("B", [O("set", 0, "k1", 17), O("get", 0, "k1")]),
+         ("C", [O("set", 0, "k1", 9), O("keys", 0), O("get", 0, "k1")])])
+    for lvl in ("RC", "RU"):
+        add("tx_%s" % lvl, [O("set", 0, "k1", 4)],
+            [("A", [O("begin", 1, l=lvl), O("set", 1, "k1", 22), O("set", 1, "k2", 23), O("get", 1, "k1"), O("commit", 1)]),
+             ("B", [O("get", 0, "k1"), O("get", 0, "k2"), O("get", 0, "k1")]), ("C", [O("set", 0, "k2", 28), O("keys", 0)])])
+    add("delete_recreate", [O("set", 0, "k1", 5), O("set", 0, "k2", 2)],
+        [("A", [O("del", 0, "k1"), O("set", 0, "k1", 34)]), ("B", [O("get", 0, "k1"), O("keys", 0), O("get", 0, "k1")]),
+         ("C", [O("del", 0, "k2"), O("keys", 0)]), ("D", [O("get", 0, "k2"), O("get", 0, "k1")])])
+    return progs
+
+
+def conc_check(chk, programs, dfs_runs, rnd_runs, preempt, family_owner=None, sched_mode=False, free=None):
     """Executes the programs under the controlled scheduler (all schedules up to the preemption bound, capped, plus
     seeded random ones), then lets TLC decide whether every recorded history is linearizable w.r.t. the promise."""
     if sched_mode:
@@ -545,6 +585,11 @@ def conc_check(chk, programs, dfs_runs, rnd_runs, preempt, family_owner=None, sc
     else:
         execs = vlib.run_conc(programs, mode="dfs", runs=dfs_runs, preempt=preempt)
         execs += vlib.run_conc(programs, mode="random", runs=rnd_runs)
+    if free:
+        fprogs, fruns = free
+        for client in ("inline", "external"):
+            execs += vlib.run_conc(fprogs, mode="free", runs=fruns, extra=["-client", client])
+        programs = list(programs) + list(fprogs)
     by_outcome = {}
     hist, meta = [], []
     for e in execs:
@@ -605,7 +650,7 @@ def conc_check(chk, programs, dfs_runs, rnd_runs, preempt, family_owner=None, sc
             own = "C06"
         if family_owner:
             own = family_owner
-        sig = known_schedule(e, own)
+        sig = known_schedule(e, own, c, ev)
         desc = "history of program %s (schedule %s) is not linearizable w.r.t. the promise at event %d: %s %s t=%s k=%s returned %s %s" % (
             e["program"], e["mode"], ei, c.get("a"), c.get("op"), c.get("t"), c.get("k"), ev.get("res"), ev.get("vs") or ev.get("ks") or "")
         if own != chk.prop:
@@ -620,12 +665,46 @@ def conc_check(chk, programs, dfs_runs, rnd_runs, preempt, family_owner=None, sc
         chk.samples.append({"program": meta[0]["program"], "history": meta[0]["history"][:24], "gates": meta[0]["gates"][:40]})
 
 
-def known_schedule(e, own):
-    """Recognises the recorded defects by the specific schedule that produces them (known_findings.json)."""
+def _unstable_reread(h):
+    """Some transaction read one key twice, without writing it in between, and got two different answers."""
+    calls = {x["id"]: x for x in h if x["e"] == "call"}
+    last = {}
+    for x in h:
+        if x["e"] != "ret":
+            continue
+        c = calls.get(x["id"])
+        if not c or not c.get("t"):
+            continue
+        if c["op"] in ("set", "del"):
+            last.pop((c["t"], c["k"]), None)
+        elif c["op"] == "get":
+            val = (x.get("res"), tuple(x.get("vs") or []))
+            if last.setdefault((c["t"], c["k"]), val) != val:
+                return True
+    return False
+
+
+# what the recorded defect looks like to the caller, besides the schedule that produces it: a different failure
+# under the same schedule is not the recorded finding
+OUTCOME_SIGNATURES = {
+    # H4: a fractured snapshot -- but a stable one
+    "begin-between-commit-draws": lambda h, c, ev: c.get("op") in ("get", "keys") and not _unstable_reread(h),
+    # H5: the snapshot lost a version to the collector: a read of a key that had a value answers not-found / omits it
+    "begin-unregistered-during-gc": lambda h, c, ev: (c.get("op") == "get" and ev.get("res") == "notfound") or c.get("op") == "keys",
+    # H6: the same answer, for any reader overtaken by the cleanup
+    "get-overtaken-by-cleanup": lambda h, c, ev: (c.get("op") == "get" and ev.get("res") == "notfound") or c.get("op") == "keys",
+}
+
+
+def known_schedule(e, own, c=None, ev=None):
+    """Recognises the recorded defects by the specific schedule that produces them and by what the caller gets
+    (known_findings.json)."""
     listed = {f["signature"] for f in vlib.known_findings().get("findings", []) if f.get("property") == own and f.get("schedule")}
     gates = e.get("gates", [])
     for sig in listed:
         if SCHEDULE_SIGNATURES.get(sig, lambda g: False)(gates):
+            if c is not None and not OUTCOME_SIGNATURES.get(sig, lambda h, c, ev: True)(e.get("history", []), c, ev or {}):
+                continue
             return sig
     return None
 
@@ -797,7 +876,8 @@ L2_BASE = dict(Keys={1, 2}, WS1=set(), WS2=set(), L1="RC", L2="RR", WithR=False,
 def c06(chk):
     quick = chk.tier == "quick"
     l2_stage(chk, "reader_writer_gc", dict(L2_BASE, WithW=True, WithA=True, WithG=True, OldVersions=2))
-    conc_check(chk, programs_c06(), 160 if quick else 1500, 16 if quick else 200, 2 if quick else 3)
+    conc_check(chk, programs_c06(), 160 if quick else 1500, 16 if quick else 200, 2 if quick else 3,
+               free=(programs_free(), 12 if quick else 300))
 
 
 def c07(chk):
@@ -859,7 +939,9 @@ def c12(chk):
         finally:
             shutil.rmtree(wd, ignore_errors=True)
     # end to end: inline Create with real sizes (0, 1, copy-buffer multiples +-1) under controlled schedules
-    conc_check(chk, programs_c12(), 30 if quick else 400, 10 if quick else 120, 2, family_owner="C12")
+    # ... and the same programs with nobody holding the goroutines back, inline and through the gRPC client
+    conc_check(chk, programs_c12(), 30 if quick else 400, 10 if quick else 120, 2, family_owner="C12",
+               free=(programs_c12(), 6 if quick else 100))
     chk.assumptions += ["the component replay uses 1..4-byte buffers; the end-to-end stage uses the real 32 KiB copy buffer"]
 
 
@@ -1074,16 +1156,26 @@ def c17(chk):
     # conformance: recorded walks of the roots validated against Dirs.tla with the real limit
     for nroots in (1, 2, 3):
         specs = [dict(seed=vlib.seed() * 7001 + i + 100 * nroots, steps=1200 if quick else 4000, keys=300 if i % 2 == 0 else 40, maxtx=2, roots=nroots,
-                      obs="false", ops="set,del,gc,reopen,begin,commit,rollback") for i in range(3 if quick else 16)]
+                      obs="false", ops="set,del,gc,reopen,begin,commit,rollback",
+                      # the same roots spelled with a trailing slash, a doubled slash, a /./ ; limits below the clamp
+                      rootstyle=(i % 3 + 1) // 2, maxdir=[100, 100, 7, 0, 99][i % 5]) for i in range(3 if quick else 16)]
         trace_stage(chk, "walks_%droots" % nroots, "DirsTrace.tla",
                     dict(Roots=set(range(1, nroots + 1)), Limit=100, MaxDirs=0, MaxSteps=0), specs, fixed_owner="C17")
     # several directories full at a reopen: writes only, a reopen every few dozen calls
     for nroots in (1, 2):
         specs = [dict(seed=vlib.seed() * 911 + i + 50 * nroots, steps=(700 if quick else 2000) * nroots, keys=4, maxtx=1, roots=nroots,
-                      obs="false", ops="set,reopen", reopenafter=450 * nroots, uniquekeys="true") for i in range(1 if quick else 6)]
+                      obs="false", ops="set,reopen", reopenafter=450 * nroots, uniquekeys="true",
+                      rootstyle=(i + nroots) % 2, maxdir=[1, 100, 50][(i + nroots - 1) % 3]) for i in range(1 if quick else 6)]
         trace_stage(chk, "fill_and_reopen_%droots" % nroots, "DirsTrace.tla",
                     dict(Roots=set(range(1, nroots + 1)), Limit=100, MaxDirs=0, MaxSteps=0), specs, fixed_owner="C17")
-    chk.assumptions += ["the directory limit is 100, the smallest value Storage.Valid allows; the design-level check uses a limit of 2",
+    # a directory fills up, loses half of its files to deletions and a collection, and must take files again
+    for nroots in (1, 2):
+        specs = [dict(seed=vlib.seed() * 1013 + i + 30 * nroots, steps=(800 if quick else 2400) * nroots, keys=4, maxtx=1, roots=nroots,
+                      obs="false", ops="set,del,gc", waves=130 * nroots, rootstyle=(i + nroots + 1) % 2) for i in range(2 if quick else 6)]
+        trace_stage(chk, "fill_drain_refill_%droots" % nroots, "DirsTrace.tla",
+                    dict(Roots=set(range(1, nroots + 1)), Limit=100, MaxDirs=0, MaxSteps=0), specs, fixed_owner="C17")
+    chk.assumptions += ["the effective directory limit is 100 (configured as 100, or as 0, 1, 7, 50, 99, which Storage.Valid clamps to 100); the design-level check uses a limit of 2",
+                        "'used again' is judged on recorded walks by starvation: a directory with room passed over by more than 30 k consecutive writes (k directories with room) is not being offered (probability of that under the uniform choice < 1e-13)",
                         "which offered directory receives a file is random in the code and is read from the recorded walk"]
 
 
